@@ -439,3 +439,80 @@ func TestVerifC16Watchdog(t *testing.T) {
 	wg.Wait()
 	vwriteOut(t, res)
 }
+
+// ---------------------------------------------------------------- the window between Read's two selects (search, not a proof)
+
+// Read finds the queue empty, recvLoop then queues the last message (it came with an error) and closes, and
+// Read enters its blocking select with both cases ready.  No schedule reaches that window deterministically
+// without a hook inside Read, so it is searched for: the reader is woken with message A and calls Read again
+// while recvLoop pushes B (with an error) and closes.  A hit = net.ErrClosed reported while B is still queued.
+type winCase struct {
+	Iters int `json:"iters"`
+}
+type winRes struct {
+	Hits     int `json:"hits"`     // closed reported, and a later Read still returned a message
+	Complete int `json:"complete"` // both messages and the error arrived in order
+	Other    int `json:"other"`
+}
+
+func runWinCase(c winCase) (res winRes) {
+	for i := 0; i < c.Iters; i++ {
+		st := newVstream(nil)
+		st.live = true
+		h, _ := heartbeatServer(st, &heartbeatConfig{Interval: time.Hour}, 64)
+		done := make(chan int, 1)
+		go func() {
+			b := make([]byte, 64)
+			got := 0
+			for {
+				k, err := h.Read(b)
+				if k > 0 {
+					got++
+				}
+				if err != nil {
+					if vclass(err) == vClosed {
+						if k2, _ := h.Read(b); k2 > 0 {
+							done <- -1
+							return
+						}
+					}
+					if got == 2 && vclass(err) == 30 {
+						done <- 2
+					} else {
+						done <- got
+					}
+					return
+				}
+			}
+		}()
+		st.feed(vmsg{D: "41", E: -1})
+		st.feed(vmsg{D: "42", E: 30})
+		select {
+		case r := <-done:
+			switch r {
+			case -1:
+				res.Hits++
+			case 2:
+				res.Complete++
+			default:
+				res.Other++
+			}
+		case <-time.After(5 * time.Second):
+			res.Other++
+		}
+		h.Close()
+	}
+	return
+}
+
+func TestVerifC16ReadWindow(t *testing.T) {
+	var cases []winCase
+	if !vreadCases(t, &cases) {
+		return
+	}
+	res := make([]winRes, len(cases))
+	for i, c := range cases {
+		res[i] = runWinCase(c)
+	}
+	vwriteOut(t, res)
+}
